@@ -5,8 +5,8 @@ Line protocol of C08.
   num <fmt> <v>                       representation of one value
   ctr <event…>                        counter operations on an empty context
   doc8 <book|article> <secnumdepth> <event…>   a document history
-  fmt V:name:val… M:the:trim:n <piece…>… E:macro     one `\the…` evaluation
-event words: C:tag:counter:star:level  H:env  T:n:v  A:n:v  S:n  N:n:within|-  NT:name:shared|-:within|-:star
+  fmt V:name:val… (M:the:trim:n <piece…> | F:the:trim:<code points of the raw format>)… E:macro     one `\the…` evaluation
+event words: SH:fmt:c ST:c RT:c:piece;piece… TV:n:m AV:n:m IC:n:v C:tag:counter:star:level  H:env  T:n:v  A:n:v  S:n  N:n:within|-  NT:name:shared|-:within|-:star
              BL EL I:tag:hasTerm QB QR NN AP:ctr
 -/
 namespace PlasVerif.Driver.C08
@@ -20,8 +20,25 @@ def errStr : Err → String
 def opt (s : String) : Option String := if s == "-" then none else some s
 def flag (s : String) : Bool := s == "1"
 
+def decodeLit (s : String) : String :=
+  String.ofList (((s.splitOn "_").filterMap String.toNat?).map Char.ofNat)
+
+/-- a piece of a user `\the…` body: `L<codes>` literal, `K,fmt,name` = `\fmt{name}`, `M,name` = `\name` -/
+def upiece? (w : String) : Option Piece :=
+  if w.startsWith "L" then some (.lit (decodeLit (w.drop 1).toString))
+  else match w.splitOn "," with
+    | ["K", f, n] => some (.call f n)
+    | ["M", n] => some (.macro n)
+    | _ => none
+
 def ev? (w : String) : Option Ev :=
   match w.splitOn ":" with
+  | ["SH", f, c] => some (.show f c)
+  | ["ST", c] => some (.showThe c)
+  | ["RT", c, body] => ((body.splitOn ";").mapM upiece?).map fun ps => .renewThe c ps
+  | ["TV", n, m] => some (.setcv n m)
+  | ["AV", n, m] => some (.addcv n m)
+  | ["IC", n, v] => v.toInt?.map fun v => .initc n v
   | ["C", tag, c, st, lvl] => lvl.toInt?.map fun l => .construct tag c (flag st) l
   | ["H", env] => some (.thm env)
   | ["T", n, v] => v.toInt?.map fun v => .setc n v
@@ -49,9 +66,6 @@ def valsStr (v : List (String × Int)) : String := ",".intercalate (v.map fun p 
 
 def emptySt : St := { store := [], thes := [], depth := 0, secnumdepth := 2, envs := [], outs := [] }
 
-def decodeLit (s : String) : String :=
-  String.ofList (((s.splitOn "_").filterMap String.toNat?).map Char.ofNat)
-
 def piece? (w : String) : Option Piece :=
   if w.startsWith "L" then some (.lit (decodeLit (w.drop 1).toString))
   else match w.splitOn ":" with
@@ -68,6 +82,8 @@ def parseFmt : Nat → List String → Store → TheEnv → Option (Store × The
       k.toNat?.bind fun k =>
         ((ws.take k).mapM piece?).bind fun ps =>
           parseFmt fuel (ws.drop k) s (env ++ [(m, { pieces := ps, trimLeft := flag tr })])
+    | ["F", m, tr, codes] =>
+      parseFmt fuel ws s (env ++ [(m, { pieces := splitFormat (decodeLit codes), trimLeft := flag tr })])
     | ["E", m] => some (s, env, m)
     | _ => none
   | _, [], _, _ => none
